@@ -45,7 +45,12 @@ RULE = ("seeded generator of relay histories: (a) copyTwoWayEx/copyTwoWay of the
         "(so the server answers ok BEFORE it dials), takes 0 / 1..3000 bytes of the client's payload off the stream and returns them as putback, rewrites the address or not, or aborts, "
         "x dial ok / failed x fast open on / off: the target gets putback ++ relay = a prefix of what the client wrote, the application a prefix of what the target sent, "
         "and when no target was connected (failed dial, abort) the application reads NO byte and its Reads end with EOF / an error, never data; those runs are also compared with the run of model/C06_Hook.v. Non-trivial = bytes were forwarded in a direction and something other than a plain EOF ended the "
-        "relay, or both directions forwarded. Distinct = distinct JSON case.")
+        "relay, or both directions forwarded. CONFIGURATION DIMENSION of level (b): every end-to-end case runs with or without a server.EventLogger "
+        "(recording) next to / instead of the TrafficLogger; directed matrix {EventLogger present, absent} x {veto on a chunk of the Up, of the Down direction} "
+        "x fast open: after the veto new Client.TCP calls on that connection must fail (connection closed) within 10 s and, with an EventLogger, "
+        "the server must report Disconnect within 5 s; after a relay that ended WITHOUT a veto the target connection is closed within 5 s and a fresh "
+        "request on the same connection is served (the connection is closed iff vetoed); these ends are also compared with the tail of model/C06_Events.v. "
+        "Distinct = distinct JSON case.")
 ASSUMPTIONS = [
     "sinks obey the io.Writer contract (n < len(p) only with a non-nil error): copyBufferLog ignores the count (hypothesis wok of the prefix/accounting theorems; quic-go streams and net.Conn do)",
     "QUIC stream reliability/ordering and QStream.Close = CancelRead + FIN delivering already written bytes (quic-go, not modelled)",
@@ -60,10 +65,12 @@ ASSUMPTIONS = [
     "a dial error message longer than MaxMessageLength (2048) bytes is outside C06_dial_error_end_to_end: the client rejects such a response as a protocol error",
     "the accounting clause is about connections no request hook intercepts (as in the property text): the bytes a hook puts back reach the target outside LogTraffic; "
     "C06_hooked_target_prefix assumes the target accepted the whole putback (handleTCPRequest ignores the result of that Write); what a hook does with the stream "
-    "(how much it reads, whether what it returns as putback is what it read) is the environment's choice; EventLogger/TraceStream calls are not modelled",
+    "(how much it reads, whether what it returns as putback is what it read) is the environment's choice; TraceStream calls are not modelled; "
+    "the EventLogger is modelled for the tail of handleTCPRequest only (model/C06_Events.v: the TCPError call between the copy and the teardown)",
 ]
 TRUSTED = ["modelled rather than verified: core/server/copy.go, the hook-less path of handleTCPRequest (server.go:271-343), client.go TCP()/tcpConn.Read "
-           "(hand transcription in coq/model/C06_Relay.v); level (a) transcribes the three teardown lines of server.go:338-342 and the two request-phase calls (server.go:246 quicvarint.Read of "
+           "(hand transcription in coq/model/C06_Relay.v); level (a) transcribes the three teardown lines of server.go:338-342 (handleTCPRequest needs a real *quic.Stream / *quic.Conn, "
+           "so the real teardown - and the EventLogger call in front of it - is what level (b) observes in every configuration: target closed, stream ended, connection closed iff vetoed) and the two request-phase calls (server.go:246 quicvarint.Read of "
            "the frame type, server.go:276 protocol.ReadTCPRequest; the callee is the real one) in the harness; "
            "level (b) runs the real handleTCPRequest/client.TCP end to end but is judged by the harness verdict only (its runs are not replayed "
            "against the LTS), except hooked requests that end without a relay (corr case CHookFail: the model's run of model/C06_Hook.v, the whole stream then FIN, client_io)",
@@ -357,10 +364,25 @@ def e2e_cases(rng, tier):
     def mk(**kw):
         c = {"k": "e2e", "fastopen": False, "logger": True, "dial_err": "", "up_n": 5000, "up_chunk": 700, "down_n": 70000,
              "down_chunk": 9000, "veto_at": -1, "ua": rng.randrange(256), "ub": rng.randrange(256),
-             "da": rng.randrange(256), "db": rng.randrange(256)}
+             "da": rng.randrange(256), "db": rng.randrange(256),
+             # configuration dimension: an EventLogger configured next to the TrafficLogger / alone / not at all
+             "evlog": rng.random() < 0.5, "veto_dir": ""}
         c.update(kw)
         return c
     cs = []
+    # configuration x veto matrix: {EventLogger present, absent} x {the vetoed chunk belongs to the Up, the Down direction}
+    # (the index counts the LogTraffic calls of that direction only, so the veto lands in the chosen loop whatever the
+    # chunking; 40000 / 70000 bytes = at least two / three chunks of the 32 KiB copy buffer), fast open alternating
+    fo = rng.random() < 0.5
+    for evlog in (True, False):
+        for vdir in ("up", "down"):
+            fo = not fo
+            if vdir == "up":
+                cs.append(mk(fastopen=fo, evlog=evlog, veto_dir="up", veto_at=rng.choice([0, 1]), up_n=rng.choice([40000, 70000]),
+                             up_chunk=rng.choice([700, 5000]), down_n=rng.choice([1, 3000])))
+            else:
+                cs.append(mk(fastopen=fo, evlog=evlog, veto_dir="down", veto_at=rng.choice([0, 1, 2]), up_n=rng.choice([0, 1, 700]),
+                             up_chunk=700, down_n=rng.choice([70000, 100000]), down_chunk=rng.choice([9000, 40000])))
     for fo in (False, True):
         cs.append(mk(fastopen=fo, dial_err="connect: connection refused (verif %d)" % rng.randrange(10**6)))
         for lg in (True, False):
@@ -408,7 +430,7 @@ def e2e_cases(rng, tier):
             cs.append(mk(fastopen=rng.random() < 0.5, logger=rng.random() < 0.7, up_n=rng.randrange(0, 100000),
                          up_chunk=rng.choice([1, 100, 5000, 40000]), down_n=rng.randrange(0, 200000),
                          down_chunk=rng.choice([1, 100, 5000, 40000]) if rng.random() < 0.9 else 1,
-                         veto_at=rng.choice([-1, -1, 0, 1, 4, 9])))
+                         veto_at=rng.choice([-1, -1, 0, 1, 4, 9]), veto_dir=rng.choice(["", "", "up", "down"])))
         for c in cs:
             if c["up_chunk"] == 1 or c["down_chunk"] == 1:
                 c["up_n"], c["down_n"] = min(c["up_n"], 3000), min(c["down_n"], 3000)
@@ -623,6 +645,13 @@ def to_coq(c, o):
             return "CHookFail %s %s %d %s %d %d" % ("true" if c["fastopen"] else "false", "true" if hk["err"] else "false",
                                                     hk["putback"], cstr((c["dial_err"] or "aborted").encode()), o["recv"],
                                                     1 if o.get("rerr") == "EOF" else 9)
+        # the end of a relay, per configuration (EventLogger present / absent) and veto (none / Up / Down): compared with the
+        # model's tail of handleTCPRequest (model/C06_Events.v)
+        if not o.get("skip") and not o.get("panic") and "vetoed" in o and ("conn_closed" in o or "alive_after" in o):
+            b = lambda x: "true" if x else "false"
+            closed = o["conn_closed"] if o["vetoed"] else not o["alive_after"]
+            return "CTail %s %s %s %s [%s]" % (b(c.get("evlog")), b(o["vetoed"]), b(o.get("veto_up")), b(closed),
+                                               ";".join(b(x) for x in (o.get("ev_tcp_err") or [])))
         return None
     if c["k"] == "xrelay":
         return xto_coq(c, o)
@@ -648,7 +677,9 @@ def klass(c, o):
         if hk:
             kind = "hooked%s%s%s:" % ("+putback" if hk["putback"] else "", "+rewrite" if hk["rewrite"] else "", "+abort" if hk["err"] else "") + \
                    ("dial-error" if c["dial_err"] else "data")
-        return "e2e:%s:fo=%d:logger=%d%s" % (kind, c["fastopen"], c["logger"], ":SKIPPED" if o.get("skip") else "")
+        if kind == "veto":
+            kind = "veto%s" % ("-up" if o.get("veto_up") else "-down")
+        return "e2e:%s:fo=%d:logger=%d:evlog=%d%s" % (kind, c["fastopen"], c["logger"], bool(c.get("evlog")), ":SKIPPED" if o.get("skip") else "")
     f = o.get("facts") or {}
     if o.get("panic"):
         return "panic"
